@@ -329,9 +329,14 @@ impl CompressedUsedLeafsIndexes {
         &mut self,
         tree_heights: &ArrayVec<[u8; MAX_ALLOWED_HSS_LEVELS]>,
     ) -> Result<(), ()> {
-        let total_tree_height: u32 = tree_heights.iter().sum::<u8>().into();
+        let total_tree_height: u32 = tree_heights.iter().map(|height| *height as u32).sum();
 
-        if self.count >= (2u64.pow(total_tree_height) - 1) {
+        // The counter has 64 bits: taller parameter sets are exhausted when it is.
+        let last_count = 1u64
+            .checked_shl(total_tree_height)
+            .map_or(u64::MAX, |leafs| leafs - 1);
+
+        if self.count >= last_count {
             return Err(());
         }
 
